@@ -250,7 +250,7 @@ def _run_cached(genfile, kind, key, cmd, timeout):
             pass
     try:
         p = subprocess.run(cmd, capture_output=True, text=True, cwd=VERIF, timeout=timeout)
-        err = p.stderr
+        err = p.stderr + '\n' + '\n'.join(l for l in p.stdout.splitlines() if l.startswith('verification results'))
     except subprocess.TimeoutExpired:
         err = None
     tmp = cp + '.%d' % os.getpid()
@@ -259,7 +259,12 @@ def _run_cached(genfile, kind, key, cmd, timeout):
     return err
 
 
-def confirm(genfile, failures, linemap, covered, timeout=1800):
+def _counts(text):
+    mo = re.search(r'verification results:: (\d+) verified, (\d+) errors', text or '')
+    return (int(mo.group(1)), int(mo.group(2))) if mo else (None, None)
+
+
+def confirm(genfile, failures, linemap, covered, trait_of=None, timeout=1800):
     """Every function that the whole-crate run reports as failing is verified once more ALONE (cached).  Only what
     that run reports counts: a failure that does not reproduce (solver `unknown` under memory pressure, a different
     search order) is dropped; if the function runs out of resources alone, its record becomes a resource-limit record
@@ -274,13 +279,17 @@ def confirm(genfile, failures, linemap, covered, timeout=1800):
         tail = re.sub(r'@\w+::', '::', fn)
         if mod and tail.startswith(mod + '::'):
             tail = tail[len(mod) + 2:]
+        impls = [q for q, t in (trait_of or {}).items() if t == fn]
+        if impls:
+            tail = '::' + fn.split('::')[-1]      # a trait method: its clauses are obligations of every implementation
         cmd = ['verus', genfile, '--cfg', 'feature="stream"', '--cfg', 'feature="raw_decoder"', '--no-lifetime',
                '--triggers-mode', 'silent', '--multiple-errors', '8', '--error-format=json',
                '--verify-function', '*' + tail]
         cmd += ['--verify-only-module', mod] if mod and mod not in ('spec', 'prelude') else ['--verify-root']
         err = _run_cached(genfile, 'confirm', fn, cmd, timeout)
-        if err is None:
-            out.extend(fs)          # could not be re-run in time: keep what the crate run said
+        nver, nerr = _counts(err)
+        if err is None or nver is None or (nver == 0 and nerr == 0):
+            out.extend(fs)          # could not be re-run (timeout, nothing matched): keep what the crate run said
             continue
         diags = []
         for line in err.splitlines():
@@ -294,7 +303,7 @@ def confirm(genfile, failures, linemap, covered, timeout=1800):
         if te:
             out.extend(fs)
             continue
-        out.extend([f for f in fl if f.get('fn') == fn])
+        out.extend([f for f in fl if f.get('fn') == fn or f.get('fn') in impls])
     return out
 
 
@@ -392,6 +401,9 @@ def retry_rlimit(genfile, fn, module, linemap, scale=4, timeout=3600):
         return 'rlimit', []
     if any(f['kind'] == 'rlimit' for f in fl):
         return 'rlimit', []
+    nver, nerr = _counts(err)
+    if nver is None or (nver == 0 and nerr == 0):
+        return 'rlimit', []      # nothing was verified (pattern matched no function): no conclusion
     if not fl:
         return 'ok', []
     return 'failed', [f for f in fl if f.get('fn') == fn]
